@@ -182,10 +182,15 @@ Fixpoint core (mc:machine) {struct mc} : Prop :=
 
 (* ---- whole histories ---- *)
 (* start() and stop() of the outermost machine *)
-Definition sp_start (mc:machine) (c:conf) : sres :=
+(* `obs`: the active ids the outermost machine's own entry behaviour reads from its fsm argument.  start() places the
+   regions on their initial states; back / back11 do that before the entry behaviour runs, backmp11 after it, so a
+   machine that is started again reports the ids it was stopped in (`stale`) - the one observation of a start() on
+   which the engines differ.  On a fresh object both are the initial states. *)
+Definition sp_start_obs (obs:list nat) (mc:machine) (c:conf) : sres :=
   let ev := Evt EV_INIT 0 in
   let c0 := c_set_act c (m_inits mc) in
-  let '(items, c1) := sp_enter mc ev c0 in (items ++ [Cb KMEntry [] 0 ev false (m_inits mc)], c1).
+  let '(items, c1) := sp_enter mc ev c0 in (items ++ [Cb KMEntry [] 0 ev false obs], c1).
+Definition sp_start (mc:machine) (c:conf) : sres := sp_start_obs (m_inits mc) mc c.
 Definition sp_stop (mc:machine) (c:conf) : sres :=
   let ev := Evt EV_EXIT 0 in
   let '(items, c1) := sp_exit mc ev c in (Cb KMExit [] 0 ev false (c_act c1) :: items, sp_post_exit mc c1).
@@ -211,10 +216,11 @@ Definition plain_op (o:op) : Prop :=
 
 (* what one operation does: behaviour invocations in order of occurrence, the outcome (for process_event), the new
    configuration *)
-Definition sp_op (pol:nat) (mc:machine) (o:op) (c:conf) : list titem * option (bool * bool) * conf :=
+Definition sp_op_gen (stale:bool) (pol:nat) (mc:machine) (o:op) (c:conf) : list titem * option (bool * bool) * conf :=
   match o with
-  | OStart _ _ => let '(i, c') := sp_start mc c in (rev i, None, c')
+  | OStart _ _ => let '(i, c') := sp_start_obs (if stale then c_act c else m_inits mc) mc c in (rev i, None, c')
   | OStop _ => let '(i, c') := sp_stop mc c in (rev i, None, c')
   | OProcess e val _ => let r := sp_process pol mc e val c in (rev (o_items r), Some (o_taken r, o_rejected r), o_conf r)
   | _ => ([], None, c)
   end.
+Definition sp_op := sp_op_gen false.
